@@ -21,6 +21,8 @@ SingleNext ==
        \/ LReset(h)      /\ hist' = Append(hist, Ev("lreset", h, "-", "-", "Ok"))
        \/ \E g \in Handles : LClone(h, g) /\ hist' = Append(hist, Ev("lclone", h, g, "-", "Ok"))
        \/ Specified(loc[h].pend) /\ LDrop(h, Kind = "hist") /\ hist' = Append(hist, Ev("ldrop", h, "-", "-", "Ok"))
+       \* the same drop, performed by the stack unwinding of a panic that the process survives
+       \/ Kind = "hist" /\ LDrop(h, TRUE) /\ hist' = Append(hist, Ev("ldrop_unwinding", h, "-", "-", "Ok"))
   \/ Direct(Amt) /\ hist' = Append(hist, Ev("direct", "-", "-", "-", "Ok"))
 VecNext ==
   \/ \E h \in VHandles :
@@ -30,6 +32,7 @@ VecNext ==
                           /\ hist' = Append(hist, Ev("lvremove", h, "-", k, IF RemoveOk(k) THEN "Ok" ELSE "Err"))
        \/ \E g \in VHandles : LVClone(h, g) /\ hist' = Append(hist, Ev("lvclone", h, g, "-", "Ok"))
        \/ (\A k \in Keys : Specified(vloc[h].cache[k].pend)) /\ LVDrop(h, Kind = "hist") /\ hist' = Append(hist, Ev("lvdrop", h, "-", "-", "Ok"))
+       \/ Kind = "hist" /\ LVDrop(h, TRUE) /\ hist' = Append(hist, Ev("lvdrop_unwinding", h, "-", "-", "Ok"))
   \/ \E k \in Keys : DirectV(k, Amt) /\ hist' = Append(hist, Ev("directv", "-", "-", k, "Ok"))
   \/ \E k \in Keys : DirectRemove(k) /\ hist' = Append(hist, Ev("directremove", "-", "-", k, IF RemoveOk(k) THEN "Ok" ELSE "Err"))
 HNext == Len(hist) < MaxLen /\ (IF Mode = "single" THEN SingleNext ELSE VecNext)
